@@ -24,5 +24,9 @@ Braid5 == { {{1,2},{1,3},{2,4},{3,4},{4,5}}, {{1,2},{2,3},{3,4},{4,5}}, {{1,2},{
 \* S=1 - a=2 - X=3 - T=4, z=5 - T (relay that has to search: see RouteDiscoveryGen)
 Chain5 == { {{1,2},{2,3},{3,4},{5,4}} }
 
+\* a=1 - X=2, a - z=3 - T=4: a relay for T that reaches X from a has to search, and the search leads back through a
+Fork4 == { {{1,2},{1,3},{3,4}} }
+Path4 == { {{1,2},{2,3},{3,4}} }
+
 DesignView == <<links, everlinks, st, parked, net, nsent, nfinds, ninjects, nexp, nloss, nlink>>
 =============================================================================
